@@ -58,7 +58,7 @@ func (dt *DateTime) UnmarshalJSON(input []byte) error {
 
 func (dt *DateTime) MarshalJSON() ([]byte, error) {
 	if DateTimeFormat == "" {
-		return json.Marshal(dt.Time)
+		return json.Marshal(dt.Time.UTC())
 	}
 	timeStr := dt.FormatTimestamp()
 	return json.Marshal(timeStr)
